@@ -206,6 +206,28 @@ def run_config(col, kind, make_driver, fam_name, regs, order, exacts, instances,
         del contract.disagreements[:]
 
 
+def reregistration(col, contract):
+    """a type first registered with exact=True and then again without: from then on it is 'registered without exact=True'
+    and covers its subclasses (the other direction is left open by the statement and not generated)"""
+    for default_types in (True, False):
+        for op in ('get', 'iterate', 'assign', 'delete'):
+            Top = type('Top', (), {}); Mid = type('Mid', (Top,), {}); Leaf = type('Leaf', (Mid,), {})
+            g = Glommer(register_default_types=default_types)
+            tagger = Tagger()
+            for typ, exact in ((Top, False), (Mid, True), (Mid, False)):
+                kw = tagger.handlers(typ)
+                g.register(typ, exact=exact, **kw)
+            seen = observe(g.glom, make_instance(Leaf), op, tagger)
+            col.case(('reregistration', op, default_types), True)
+            col.count('api_lookups')
+            if seen != 'Mid':
+                col.violation('C13/handler-not-nearest-registered-type:reregistered-non-exact',
+                              'register(Top), register(Mid, exact=True), register(Mid): %s on a Leaf(Mid) instance ran the handler of %r, expected Mid'
+                              % (op, seen), None)
+            if contract.disagreements:
+                del contract.disagreements[:]     # (the contract's bookkeeping marks Mid as non-exact from the second call on: same verdict)
+
+
 def glommer_driver(default_types):
     def make():
         g = Glommer(register_default_types=default_types)
@@ -371,6 +393,7 @@ def run(ctx):
         if ctx.shard == 0:
             parity(col)
             isolation(col, rng)
+            reregistration(col, contract)
         fams = families()
         for name, registrable, classes in fams:
             instances = [make_instance(c) for c in classes]
